@@ -190,8 +190,13 @@ def main(argv):
             found, out = run_probe(pb)
             probe_results.append({'probe': pb, 'found_failing_input': found, 'output': out[-1500:]})
 
-    os.makedirs(EVID, exist_ok=True)
-    os.makedirs(REPLAY_OUT, exist_ok=True)
+    # evidence and replay files of runs against a scratch copy (sensitivity runs) never overwrite those of /repo
+    evid_dir, replay_dir = EVID, REPLAY_OUT
+    if os.environ.get('VX_REPO', '/repo') != '/repo':
+        evid_dir = os.path.join(os.environ.get('VX_CACHE', '/var/tmp/vx-cache'), 'scratch-evidence')
+        replay_dir = os.path.join(evid_dir, 'replay')
+    os.makedirs(evid_dir, exist_ok=True)
+    os.makedirs(replay_dir, exist_ok=True)
     exit_code = 0
     out_lines = []
     for f, k in known_hits:
@@ -207,7 +212,7 @@ def main(argv):
                 continue
             seen.add(f.id)
             slug = re.sub(r'[^A-Za-z0-9_.-]+', '_', f.id)[:120]
-            path = os.path.join(REPLAY_OUT, '%s-%s.txt' % (a.prop, slug))
+            path = os.path.join(replay_dir, '%s-%s.txt' % (a.prop, slug))
             wit = [p for p in probe_results if p['found_failing_input']]
             with open(path, 'w') as fh:
                 fh.write('property: %s\nfailed obligation: %s\nclass: %s\nmessage: %s\nwhere: %s\nclause/statement: %s\n'
@@ -224,7 +229,7 @@ def main(argv):
             tail = '' if wit else ' no-failing-input-found'
             out_lines.append('VIOLATION property=%s replay=%s obligation=%s%s' % (a.prop, path, f.id.replace(' ', '_')[:160], tail))
         for p in probe_viol:
-            path = os.path.join(REPLAY_OUT, '%s-probe-%s.txt' % (a.prop, p['probe']))
+            path = os.path.join(replay_dir, '%s-probe-%s.txt' % (a.prop, p['probe']))
             with open(path, 'w') as fh:
                 fh.write('property: %s\nwitness probe %s found a failing input on the real code\n%s\n' % (a.prop, p['probe'], p['output']))
             out_lines.append('VIOLATION property=%s replay=%s probe=%s' % (a.prop, path, p['probe']))
@@ -268,7 +273,7 @@ def main(argv):
         'wall_s': round(time.time() - t0, 2),
         'violations': len(violations) + len(probe_viol),
     }
-    with open(os.path.join(EVID, a.prop + '.json'), 'w') as fh:
+    with open(os.path.join(evid_dir, a.prop + '.json'), 'w') as fh:
         json.dump(ev, fh, indent=1)
     for l in out_lines:
         print(l)
